@@ -402,8 +402,11 @@ func cliDiagnostics(meta *common.Meta, dir string, pkgs []*fw.Pkg, ems map[strin
 			args = append(args, "./checkers/testdata/"+p.Name)
 		}
 		out, code, err := common.Run(300*time.Second, dir, common.GoEnv(), filepath.Join(common.BinDir(), "go-critic"), args...)
-		if fw.IsTimeout(err) { // retried once with a longer limit; see fw.RunPatient
+		if fw.IsTimeout(err) || (err == nil && code == -1) { // retried once with a longer limit; see fw.RunPatient
 			out, code, err = common.Run(900*time.Second, dir, common.GoEnv(), filepath.Join(common.BinDir(), "go-critic"), args...)
+		}
+		if err == nil && code == -1 {
+			err = fmt.Errorf("killed by a signal (not by this harness): no observation")
 		}
 		if err == nil && code != 0 && code != 1 {
 			err = fmt.Errorf("exit %d: %s", code, clipStr(out, 300))
